@@ -1,16 +1,25 @@
 from common import T_COMMON
 
+STORE_FILES = ["modeling/mesh.go", "modeling/tri.go", "modeling/line.go", "modeling/point.go", "modeling/meshops",
+               "modeling/repeat", "modeling/primitives", "formats/ply/writer.go", "formats/ply/write.go",
+               "formats/obj/writer.go", "formats/stl/write.go"]
+
 CFG = dict(
+    gen=[dict(tool="facts", mode="c01.stores", out="C01Stores.lean", args=STORE_FILES)],
     theorems=["op_frame", "op_writes_fresh_only", "step_valid", "step_immutable", "run_valid",
-              "history_immutable", "empty_valid", "derivations_commute_partial", "appendInPlace_breaks"],
+              "history_immutable", "empty_valid", "derivations_commute_partial", "appendInPlace_breaks",
+              "store_sites_fresh", "store_sites_cover"],
     streams=[dict(name="c01", n=dict(quick=300, thorough=6000))],
     trusted=T_COMMON + [
+        "engine F extractor /verif/go/facts/c01.go (syntactic, intra-procedural provenance of store targets; conservative by construction; "
+        "stores done by callees outside the scanned files are not tracked except sort.*/slices.Sort*)",
         "C01 heap abstraction (Model/MeshHeap.lean): one untyped cell heap + map objects; the assignment of each public "
         "operation to a memory-behaviour class is checked only by the heap-shape correspondence (reflect-observed sharing graph) "
         "and the value-level oracle, on generated histories",
         "reflect/unsafe reading of (data pointer, len, cap) and map identity of unexported Mesh fields; Go's non-moving GC",
     ],
     residue=[
+        "formats/gltf writer is outside the static store-site scan (it is a stateful Writer storing into its own buffers); it is covered by the value-level oracle only",
         "derivations_commute_full (Props/C01.lean, stated as a def): that the value an operation returns does not depend on the heap layout "
         "(hence on whether another derivation ran first) is NOT proved; proved part = derivations_commute_partial (no interference); "
         "the rest is checked on the implementation by the c01.holds.rederive oracle and the value-level c01.append correspondence",
